@@ -53,7 +53,9 @@ class SeqCache(evx.System):
   def __init__(self, p):
     self.p = p
     self.metrics = p.get('metrics', ('m', 'n', 'o'))
-    self.tss = p.get('tss', (1, 2))
+    self.tss = p.get('tss', (1, 2, 3) if (p.get('lag') and 'c17' in p.get('oracles', ())) else (1, 2))
+    if len(self.tss) == 3:
+      self.metrics = tuple(self.metrics[:2])      # three timestamp kinds on two series: the alphabet keeps its size
     self.oracles = p.get('oracles', ('c02',))
 
   def reset(self):
@@ -70,6 +72,8 @@ class SeqCache(evx.System):
     import carbon.cache
     from carbon import events
     self.clock = Clock()
+    if p.get('lag'):
+      self.clock.now += 0.25
     carbon.cache.time = self.clock
     self.mod = carbon.cache
     self.pick = 0
@@ -83,6 +87,8 @@ class SeqCache(evx.System):
     events.cacheOverflow.addHandler(self._ov)
     self.ref = RefCache(self.hard_max)
     self.n = 0
+    self.reports = 0
+    self.reported_overflow = 0
     # pass-discipline monitor (C17)
     self.members = None
     self.drained = frozenset()
@@ -108,6 +114,8 @@ class SeqCache(evx.System):
       evs.append(('tick',))
     if 'c02' in self.oracles:
       evs.append(('query', self.metrics[0]))
+    if 'c10' in self.oracles and self.reports < 1:
+      evs.append(('report',))
     if ('c02' in self.oracles or 'c10' in self.oracles) and self.p.get('extfull', True):
       from carbon import state
       if not state.cacheTooFull:
@@ -132,6 +140,9 @@ class SeqCache(evx.System):
       # timestamp 2 stands for "fresh": the current instant under a lag (not yet eligible), and a timestamp
       # AHEAD of the daemon's clock (a sender whose clock runs fast) without one - still to be handed out
       tsx = ts if ts != 2 else (self.clock.now if self.p.get('lag') else self.clock.now + 1000.0)
+      if ts == 3:
+        # half a second short of the lag, on a clock that does not sit on a whole second: not yet eligible
+        tsx = self.clock.now - self.p['lag'] + 0.5
       try:
         self.proc.process(m, (tsx, v))
       except Exception as e:   # noqa
@@ -169,6 +180,35 @@ class SeqCache(evx.System):
           return v
     elif ev[0] == 'tick':
       self.clock.now += self.p['lag'] + 1
+    elif ev[0] == 'report':
+      # the instrumentation tick of a cache daemon: the real recordMetrics() reports and clears the counters and stores the
+      # daemon's own statistics INTO THE CACHE - where they are refused like anything else when it is full (and those
+      # refusals feed the counter that is being reported).  Only the cache_record() shim is replaced (harness identities).
+      from carbon import instrumentation as instr
+      from carbon.conf import settings
+      self.reports += 1
+
+      def shim(metric, value):
+        if metric == 'cache.overflow':
+          self.reported_overflow += value
+        self.n += 1
+        name = 'carbon.agents.verif-a.%s' % metric
+        self.cache.store(name, (self.clock.now, float(self.n)))
+        self.ref.store(name, self.clock.now, float(self.n))
+      saved_rec, saved_prog = instr.cache_record, settings['program']
+      instr.cache_record = shim
+      settings['program'] = 'carbon-cache'
+      try:
+        instr.recordMetrics()
+      except Exception as e:   # noqa
+        return ('exception:%s:%s' % (strat, type(e).__name__), 'recordMetrics() raised %r' % (e,))
+      finally:
+        instr.cache_record = saved_rec
+        settings['program'] = saved_prog
+      counted = self.reported_overflow + instr.stats.get('cache.overflow', 0)
+      if counted != self.overflow:
+        return ('overflow-not-counted', '%d datapoints were refused so far (each raised the overflow signal), but the instrumentation ticks '
+                'reported %d and the counter holds %d' % (self.overflow, self.reported_overflow, instr.stats.get('cache.overflow', 0)))
     elif ev[0] == 'extfull':
       from carbon import events
       try:
@@ -233,7 +273,15 @@ class SeqCache(evx.System):
     except Exception:   # noqa
       priv = ('history', self.n)
     return (shape, tuple(c.new_metrics) if hasattr(c, 'new_metrics') else None, priv, state.cacheTooFull,
-            self.members, self.drained, self.clock.now if self.p.get('lag') else None)
+            self.members, self.drained, self.clock.now if self.p.get('lag') else None, self.reports,
+            self.pending_counters())
+
+  def pending_counters(self):
+    # which counters are waiting in the table for the next instrumentation tick is part of the state once ticks are events
+    if 'c10' not in self.oracles or self.reports >= 1:
+      return None
+    from carbon import instrumentation as instr
+    return tuple(sorted(k for k, v in instr.stats.items() if v))
 
   def on_new_state(self):
     if 'c17' not in self.oracles:
